@@ -2,6 +2,7 @@
 //! traffic on a REAL Server through the rig and write the observation trace for Trace_Server.tla.
 use crate::interp::{self, Proto};
 use crate::proto;
+use crate::refcodec as rc;
 use crate::rig::{self, Rig, RigCfg, Sent};
 use crate::util::{hex, unhex, Rng};
 use serde_json::{json, Value};
@@ -92,6 +93,15 @@ pub fn run_round_at(ctx: &mut Ctx, rig: &mut Rig, sends: Vec<(usize, Vec<u8>)>, 
             } }
         }
     }
+    // fault-injection sections: per signed batch, how many responses it had and how many were fault-injected
+    if rig.cfg.fault > 0 {
+        let mut cur: Option<(u64, u64)> = None;
+        for h in &hooks {
+            if h.name == "signed" { if let Some((n, g)) = cur.take() { if n > 0 { ctx.emit(json!({"ev": "grease_batch", "n": n, "greased": g})); } } cur = Some((0, 0)); }
+            else if h.name == "sent" { if let Some((n, g)) = cur.as_mut() { *n += 1; if h.get_b("greased") == Some(true) { *g += 1; } } }
+        }
+        if let Some((n, g)) = cur { if n > 0 { ctx.emit(json!({"ev": "grease_batch", "n": n, "greased": g})); } }
+    }
     for (sock, bytes) in rig.drain() {
         let g = greased.get_mut(&rig.client_port(sock)).and_then(|q| q.pop_front()).unwrap_or(false);
         let e = rig.reply_event(sock, &bytes, &round, t_before, t_after, g);
@@ -121,7 +131,7 @@ pub fn mutant(rng: &mut Rng, srv: &[u8]) -> Vec<u8> {
     let with_srv = rng.chance(1, 3);
     let base = valid_request(rng, p, size, if with_srv { Some(srv) } else { None });
     let mut b = base.clone();
-    match rng.below(21) {
+    match rng.below(23) {
         0 => { b.truncate(rng.below(b.len() as u64) as usize); }                       // truncated
         1 => { let extra = rng.below(600) as usize + 1; let e = rng.bytes(extra); b.extend(e); } // extended
         2 => { b.truncate(1020); }                                                      // just below the minimum
@@ -200,6 +210,21 @@ pub fn mutant(rng: &mut Rng, srv: &[u8]) -> Vec<u8> {
             let nonce = rng.bytes(32);
             b = proto::build_request(p, &nonce, size, &vers, None);
         }
+        20 | 21 => {   // a field repeated (same tag twice in a row) or two neighbouring fields swapped, everything else well-formed
+            let off = if p == Proto::Ietf { 12 } else { 0 };
+            if let Some(mut fields) = rc::ref_decode(&base[off..]) {
+                if !fields.is_empty() {
+                    let k = rng.below(fields.len() as u64) as usize;
+                    if rng.chance(2, 3) { let dup = fields[k].clone(); fields.insert(k, dup); }
+                    else if fields.len() >= 2 { let j = k.min(fields.len() - 2); fields.swap(j, j + 1); }
+                    // keep the datagram length: shorten the last (padding) field by what was added
+                    let mut enc = rc::ref_encode(&fields);
+                    let want = base.len() - off;
+                    if enc.len() > want { let extra = enc.len() - want; let last = fields.len() - 1; let l = fields[last].1.len(); if l >= extra { fields[last].1.truncate(l - extra); enc = rc::ref_encode(&fields); } }
+                    b = if p == Proto::Ietf { rc::ref_frame(&enc) } else { enc };
+                }
+            }
+        }
         14 if p == Proto::Ietf => { let mut s = srv.to_vec(); let i = rng.below(32) as usize; s[i] ^= 1 << rng.below(8); let nonce = rng.bytes(32); b = proto::build_request(p, &nonce, size, &[proto::VER_DRAFT13], Some(&s)); }
         _ => {}
     }
@@ -233,6 +258,29 @@ pub fn drive_sizes(ctx: &mut Ctx, rng: &mut Rng, thorough: bool) {
                     let d = proto::build_request(p, &nonce, size, &[proto::VER_DRAFT13], None);
                     let s = sentinel(rng, nl as u64);
                     run_round(ctx, &mut rig, vec![(0, d), (1, s)], vec![], false);
+                }
+            }
+            // every field of each request shape repeated once, and every neighbouring pair swapped
+            for p in [Proto::Google, Proto::Ietf] {
+                for with_srv in [false, true] {
+                    if p == Proto::Google && with_srv { continue; }
+                    let base = valid_request(rng, p, 1100, if with_srv { Some(&srv) } else { None });
+                    let off = if p == Proto::Ietf { 12 } else { 0 };
+                    let fields = rc::ref_decode(&base[off..]).unwrap_or_default();
+                    for k in 0..fields.len() {
+                        for swap in [false, true] {
+                            let mut f2 = fields.clone();
+                            if swap { if k + 1 >= f2.len() { continue; } f2.swap(k, k + 1); } else { let dup = f2[k].clone(); f2.insert(k, dup); }
+                            let last = f2.len() - 1;
+                            let enc0 = rc::ref_encode(&f2);
+                            let want = base.len() - off;
+                            if enc0.len() > want { let extra = enc0.len() - want; let l = f2[last].1.len(); if l >= extra { f2[last].1.truncate(l - extra); } }
+                            let enc = rc::ref_encode(&f2);
+                            let d = if p == Proto::Ietf { rc::ref_frame(&enc) } else { enc };
+                            let s = sentinel(rng, k as u64);
+                            run_round(ctx, &mut rig, vec![(0, d), (1, s)], vec![], false);
+                        }
+                    }
                 }
             }
             // tag counts around every boundary the datagram length defines, for the smallest and the largest request
@@ -356,12 +404,30 @@ pub fn drive_bursts(ctx: &mut Ctx, rng: &mut Rng, thorough: bool) {
                     0..=7 => valid_request(rng, Proto::Google, size, None),
                     8..=15 => { let ws = rng.chance(1, 2); valid_request(rng, Proto::Ietf, size, if ws { Some(&srv) } else { None }) }
                     16 => proto::build_request(Proto::Google, &shared_nonce_g, size, &[], None),              // identical nonces
-                    17 => proto::build_request(Proto::Ietf, &shared_nonce_i, 1024, &[proto::VER_DRAFT13], None), // identical requests
+                    17 => {   // IETF requests that share a NONCE: byte-identical ones, and ones that differ elsewhere (size, SRV) -
+                              // the IETF leaf is the whole request, so these are different leaves
+                        let sz = if rng.chance(1, 2) { 1024 } else { 1024 + 4 * rng.below(60) as usize };
+                        let ws = rng.chance(1, 2);
+                        proto::build_request(Proto::Ietf, &shared_nonce_i, sz, &[proto::VER_DRAFT13], if ws { Some(&srv) } else { None })
+                    }
                     _ => mutant(rng, &srv),
                 };
                 sends.push((sock, d));
                 // a retransmission: the same datagram from the same socket, back to back (each copy is a request of its own)
                 if rng.chance(1, 8) { let last = sends[sends.len() - 1].clone(); sends.push(last); }
+                // ... or right behind it a request with the SAME nonce in a different packet (another size, with SRV), from the same
+                // or another socket
+                if rng.chance(1, 8) {
+                    if let Some(nonce) = proto::request_nonce(&sends[sends.len() - 1].1) {
+                        if nonce.len() == 32 || nonce.len() == 64 {
+                            let p2 = if nonce.len() == 32 { Proto::Ietf } else { Proto::Google };
+                            let sz = 1028 + 4 * rng.below(80) as usize;
+                            let d2 = proto::build_request(p2, &nonce, sz, &[proto::VER_DRAFT13], Some(&srv));
+                            let s2 = if rng.chance(1, 2) { sends[sends.len() - 1].0 } else { 4 + rng.below(44) as usize };
+                            sends.push((s2, d2));
+                        }
+                    }
+                }
                 // a request whose response cannot be sent (source port 0): the others of its batch are unaffected
                 if rig.can_spoof() && rng.chance(1, 16) { let pp = if rng.chance(1, 2) { Proto::Google } else { Proto::Ietf }; sends.push((rig::UNROUTABLE, valid_request(rng, pp, 1024, None))); }
             }
@@ -491,6 +557,21 @@ pub fn drive_hostile(ctx: &mut Ctx, rng: &mut Rng, thorough: bool) {
                     sends.push((1, valid_request(rng, Proto::Ietf, 1024, None)));
                     run_round(ctx, &mut rig, sends, vec![], false);
                 }
+                // counters that only overflow after very many events: 70 000 invalid datagrams from ONE address (more than a
+                // 16-bit counter holds), with the per-client recorder, then valid requests
+                if level == 0 && fault == 0 && *batch == 64 {
+                    for cs in [true, false] {
+                        let mut c2 = cfg(64, 0, 0, 8);
+                        c2.client_stats = cs;
+                        if let Some(mut r2) = new_section(ctx, c2) {
+                            bulk_junk(ctx, &mut r2, rng, 5, 70_000, 8);
+                            let sends = vec![(0usize, valid_request(rng, Proto::Google, 1024, None)), (1usize, valid_request(rng, Proto::Ietf, 1024, None))];
+                            run_round(ctx, &mut r2, sends, vec![], false);
+                            let st = r2.stats_event();
+                            ctx.emit(st);
+                        }
+                    }
+                }
                 // more queued batches than one wake-up handles, hostile datagrams among them
                 if *batch <= 4 {
                     let n = 18 * *batch as usize + 2;
@@ -501,6 +582,29 @@ pub fn drive_hostile(ctx: &mut Ctx, rng: &mut Rng, thorough: bool) {
             }
         }
     }
+}
+
+/// many datagrams, one summarising event: `n` junk datagrams of `size` bytes from socket `sock`, in chunks, the worker pumped
+/// after each chunk. Per-datagram events are not recorded (the datagrams are all invalid: no reply is expected for any).
+pub fn bulk_junk(ctx: &mut Ctx, rig: &mut Rig, rng: &mut Rng, sock: usize, n: usize, size: usize) {
+    let mut consumed_total = 0usize;
+    let mut panic: Option<String> = None;
+    let mut wedged = false;
+    let mut left = n;
+    let _ = rig.take_hooks();
+    while left > 0 && panic.is_none() && !wedged {
+        let k = left.min(64);
+        let mut sent = 0;
+        for _ in 0..k { let mut d = rng.bytes(size); if size >= 4 { d[0] = 0xff; d[3] = 0xff; } if rig.send(sock, &d) { sent += 1; } }
+        let (p, w, c) = rig.pump(sent);
+        consumed_total += c;
+        panic = p;
+        wedged = w && rig.server_rx_queue() > 0;
+        left -= k;
+        let _ = rig.take_hooks();
+    }
+    let replies = rig.drain().len();
+    ctx.emit(json!({"ev": "bulk", "n": consumed_total, "sent": n - left, "replies": replies, "panic": panic.is_some(), "panic_msg": panic.unwrap_or_default(), "wedged": wedged}));
 }
 
 /// C10: seeds x restarts: identity and certificates
